@@ -52,6 +52,16 @@ type limObs struct {
 	Same      bool   `json:"same"`
 	Panic     bool   `json:"panic"`
 	N         int    `json:"n"`
+	// the same request once more, its last bytes arriving together with io.EOF (request direction only)
+	Alt limAlt `json:"alt"`
+}
+
+type limAlt struct {
+	Has       bool `json:"has"`
+	Ok        bool `json:"ok"`
+	Code      int  `json:"code"`
+	Delivered bool `json:"delivered"`
+	Panic     bool `json:"panic"`
 }
 
 func init() {
@@ -226,6 +236,14 @@ func init() {
 			obs.Delivered = idsOK(o.Cl.Frames, 2)
 		}
 		obs.Ok = o.Cl.End.Code == 0
+		if ls.Dir == "req" {
+			alt := *scn
+			alt.Cl.EOFData = true
+			alt.WatchPool = false
+			ao := runOnce(&alt, seed)
+			obs.Alt = limAlt{Has: true, Ok: ao.Cl.End.Code == 0, Code: ao.Cl.End.Code, Panic: ao.Ret.Panic,
+				Delivered: len(ao.Disp) > 0 && idsOK(ao.Disp[0].Frames, 1)}
+		}
 		return []any{obs}
 	})
 }
